@@ -26,8 +26,15 @@ class HarnessError(Exception):
     pass
 
 
+LEAN = False     # C17: do not pre-import lazily loaded package modules
+
+
 def preload():
-    """Zygote: import (never call) the YaLafi modules from the working tree."""
+    """Zygote: import (never call) the YaLafi modules from the working tree.
+    With LEAN set, only what `import yalafi.tex2txt` and the shell's
+    unconditional imports pull in: extension modules for packages and document
+    classes are then imported by each child on demand, exactly as in a fresh
+    interpreter (their import-time effects are part of what C17 observes)."""
     global _preloaded
     if _preloaded:
         return
@@ -41,6 +48,10 @@ def preload():
     skip = {'yalafi.__main__', 'yalafi.shell.__main__', 'yalafi.shell.shell'}
     for m in pkgutil.walk_packages(yalafi.__path__, 'yalafi.'):
         if m.name in skip:
+            continue
+        if LEAN and (m.name.startswith('yalafi.packages')
+                     or m.name.startswith('yalafi.documentclasses')
+                     or m.name == 'yalafi.shell.addpacks'):
             continue
         try:
             importlib.import_module(m.name)
